@@ -201,6 +201,11 @@ class FormatterFactory:
             # since those aren't allowed when formatting with a mapping.
             #
             raise ValueError('%s formats cannot use positional placeholders')
+        # The formatter class checks the format again when it is
+        # instantiated (the standard one refuses a format without any
+        # field); create one now so that such a format is refused while
+        # the configuration is loaded, not when the factory is called.
+        self()
 
     def __call__(self):
         #
